@@ -47,7 +47,7 @@ VALID_ACCENTS = _valid_accents()
 SPECIALS = ['--', '---', '``', "''", '~', '\\,', '\\%', '\\&', '\\$', '\\#', '\\_', '\\{', '\\}', '\\ ', '\\;', '\\:', '\\!', '&']
 SYMBOL_MACROS = ['\\AA', '\\ae', '\\ss', '\\S', '\\LaTeX', '\\TeX', '\\o', '\\L', '\\textbackslash', '\\textasciitilde',
                  '\\quad', '\\hfill', '\\newline', '\\nobreakspace', '\\textasciicircum']
-MATH_ATOMS = ['x', 'y', 'a', '1', '2', 'n', '\\alpha', '\\beta', '\\frac{a}{b}', 'f(x)', 'x^2', 'a_{i}', '\\sqrt{2}',
+MATH_ATOMS = ['\\sum_{\\substack{i<n \\\\ j<m}} a_{ij}', 'x', 'y', 'a', '1', '2', 'n', '\\alpha', '\\beta', '\\frac{a}{b}', 'f(x)', 'x^2', 'a_{i}', '\\sqrt{2}',
               '\\sum_{i=1}^n', '\\mathbb{R}', '\\xi']
 MATH_OPS = ['+', '-', '=', '\\cdot', '\\le', '<', '\\to', '\\times', '/', ':=', '\\neq', '\\in']
 MATH_SPACES = ['\\,', '\\;', '~', '\\ ', '\\quad', '\\qquad', '\\:']
@@ -718,7 +718,7 @@ SOUP = (['#10', '#1000', '#0', '\\\\ ', '\\\\  x', '\r\n', '\r', '\f', '\x0b', '
          '\\begin{otherlanguage}', '\\end{otherlanguage}', '\\selectlanguage', '\\foreignlanguage', '{german}', '{english}',
          '%%% LT-SKIP-BEGIN\n', '%%% LT-SKIP-END\n', '\\gls', '\\newacronym', '\\newglossaryentry', '{description}',
          'description=', '\\Gls', '\\GLS', '\\cref', '\\eqref', '\\textcolor', '\\includegraphics', '\\href', '\\url',
-         '\\xspace', '\\qedhere', '\\theoremstyle', '\\DeclareMathOperator', '\\substack', '\\notag', '\\textcite', '\\footcite'])
+         '\\substack{', '\\textcite[][', '\\cite[]', '\\def\\x#1{#2}', '\\def\\y#2{}', '\\lstinline|', '\\begin{lstlisting}', '\\begin{tikzpicture}', '\\end{tikzpicture}', '\\xspace', '\\qedhere', '\\theoremstyle', '\\DeclareMathOperator', '\\substack', '\\notag', '\\textcite', '\\footcite'])
 
 def soup(rng, n=None):
     return ''.join(rng.choice(SOUP) for _ in range(n or rng.randint(1, 14)))
@@ -785,5 +785,5 @@ def gen_options(rng):
     if rng.random() < 0.1:
         o['nosp'] = True
     if rng.random() < 0.1:
-        o['extr'] = rng.choice(['footnote', 'section,caption', 'foo', 'input,include', 'textbf'])
+        o['extr'] = rng.choice(['footnote', 'section,caption', 'foo', 'input,include', 'textbf', 'LaTeX,item,footnote', 'cite,hspace'])
     return o
